@@ -81,8 +81,8 @@ WorkThread::WorkThread(event::Loop *main_loop) :
     d_(new Data)
 {
     d_->default_main_loop = main_loop;
+    d_->stop_flag = false;  //! before the thread starts: it reads the flag under the lock
     d_->work_thread = std::thread(std::bind(&WorkThread::threadProc, this));
-    d_->stop_flag = false;
 }
 
 WorkThread::~WorkThread()
@@ -286,10 +286,12 @@ void WorkThread::cleanup()
             d_->task_pool.free(d_->undo_tasks_cabinet.free(token));
             d_->undo_tasks_token_deque.pop_front();
         }
+
+        //! set under the lock: the worker tests it in its wait predicate with the lock held
+        d_->stop_flag = true;
     }
 
-    TBOX_VERIF_POINT("WorkThread.cleanup_before_stop_flag");
-    d_->stop_flag = true;
+    TBOX_VERIF_POINT("WorkThread.cleanup_before_notify");
     d_->cond_var.notify_all();
 
     d_->work_thread.join();
